@@ -62,7 +62,8 @@ def sym(symbol, i, fname):
 
 
 SYMS = ["id", "mut", "ref", "raw", "wild", "tup", "ts1", "ts2", "st", "refpat", "fnname", "gnext", "gprev", "suffix", "tsfn"]
-CONTEXTS = ["gen", "nodeps", "mod", "impl", "trait"]
+CONTEXTS = ["gen", "nodeps", "mod", "impl", "trait", "traitreq"]
+REQ_OK = {"id", "raw", "wild", "fnname", "gnext", "gprev", "suffix"}   # what a method WITHOUT a body may declare: identifiers and `_`
 
 
 def valid(word, fname):
@@ -82,7 +83,9 @@ def enumerate_states(tier):
             for fname in ("f", "r#type"):
                 if fname == "r#type" and ctx != "gen":
                     continue
-                if ctx == "trait" and len(w) > 2 and tier != "thorough":
+                if ctx in ("trait", "traitreq") and len(w) > 2 and tier != "thorough":
+                    continue
+                if ctx == "traitreq" and not set(w) <= REQ_OK:
                     continue
                 if len(w) == maxlen and maxlen >= 3 and ctx not in ("gen", "impl") and tier != "thorough":
                     continue  # longest words: the two contexts with different call forms
@@ -114,6 +117,13 @@ def render(s):
         L += ["    #[::entrait::entrait(pub Tr)]", "    pub mod m {", "        use super::*;",
               "        pub fn %s(deps: &impl ::core::any::Any, %s) -> String { %s }" % (fname, ", ".join(params), body), "    }"]
         direct = "m::%s(&app, %s)" % (fname, args)
+    elif ctx == "traitreq":
+        # an entraited trait whose REQUIRED method declares these parameters
+        L += ["    #[::entrait::entrait]",
+              "    pub trait Tr { fn %s(&self, %s) -> String; }" % (fname, ", ".join(params)),
+              "    pub struct App;",
+              "    impl Tr for App { fn %s(&self, %s) -> String { %s } }" % (fname, ", ".join(params), body)]
+        direct = "<App as Tr>::%s(&*app, %s)" % (fname, args)
     elif ctx == "trait":
         # an entraited trait whose method is PROVIDED with these parameter patterns; the application overrides it with plain names
         plain = ", ".join("q%d: %s" % (i, d["ty"]) for i, d in enumerate(ds))
@@ -138,11 +148,11 @@ def render(s):
               "    pub struct App;",
               "    impl DelegateTr<Self> for App { type Target = X; }"]
         direct = "X::%s(&app, %s)" % (fname, args)
-    appexpr = "::entrait::Impl::new(App)" if ctx in ("impl", "trait") else "::entrait::Impl::new(())"
+    appexpr = "::entrait::Impl::new(App)" if ctx in ("impl", "trait", "traitreq") else "::entrait::Impl::new(())"
     L += ["    pub fn client() {",
           "        let app = %s;" % appexpr,
           '        { let r = %s; rt::out("d", format!("{}##{}", rt::take(), r)); }' % direct,
-          '        { let r = %s; rt::out("t", format!("{}##{}", rt::take(), r)); }' % (("<::entrait::Impl<App> as Tr>::%s(&app, %s)" % (fname, args)) if ctx == "trait" else ("app.%s(%s)" % (fname, args))),
+          '        { let r = %s; rt::out("t", format!("{}##{}", rt::take(), r)); }' % (("<::entrait::Impl<App> as Tr>::%s(&app, %s)" % (fname, args)) if ctx in ("trait", "traitreq") else ("app.%s(%s)" % (fname, args))),
           "    }", "}"]
     return engine.Unit(key, "\n".join(L), 'rt::run("%s", %s::client);' % (key, key), s)
 
@@ -170,7 +180,7 @@ def method_params(view, s):
         items = [x for it in items if it["k"] == "mod" and it.get("items") for x in it["items"]]
     out = []
     for it in items:
-        if it["k"] == "trait" and it["ident"] == "Tr" and s["ctx"] not in ("impl", "trait"):
+        if it["k"] == "trait" and it["ident"] == "Tr" and s["ctx"] not in ("impl", "trait", "traitreq"):
             for f in it["items"]:
                 if f["k"] == "fn" and f["sig"]["ident"] == fname:
                     out.append(("trait", typed(f["sig"])))
@@ -227,7 +237,7 @@ def evaluate(states, report, tier):
                         continue
                     if len(set(names)) != len(names):
                         problems.append(("duplicate-names", str(names)))
-                    if s["ctx"] not in ("impl", "trait") and s["fname"] in names:
+                    if s["ctx"] not in ("impl", "trait", "traitreq") and s["fname"] in names:
                         problems.append(("shadows-callee", "%s contains the function's own name `%s`" % (names, s["fname"])))
                     for i, (got, want) in enumerate(zip(names, m["names"])):
                         if want is not None and got != want:
